@@ -195,9 +195,18 @@ class SyncedDict(SyncedCollection, MutableMapping):
 
         """
         if _mapping_resolver.get_type(data) == "MAPPING":
-            self._update(data)
-            with self._thread_lock:
-                self._save()
+            if self._root is None:
+                # Replacing all data of the root is destructive, so no load is
+                # required, but the change and the save must not be interleaved
+                # with other writers.
+                with self._thread_lock:
+                    self._update(data)
+                    self._save()
+            else:
+                # A nested collection is only a part of the data, so the rest
+                # must be up to date before it is saved along with the change.
+                with self._load_and_save:
+                    self._update(data)
         else:
             raise ValueError(
                 "Unsupported type: {}. The data must be a mapping or None.".format(
@@ -232,10 +241,18 @@ class SyncedDict(SyncedCollection, MutableMapping):
         return ret
 
     def clear(self):  # noqa: D102
-        # Modify the container in place: buffered collections may share it.
-        self._data.clear()
-        with self._thread_lock:
-            self._save()
+        # The container is modified in place: buffered collections may share it.
+        if self._root is None:
+            # Clearing the root is destructive, so no load is required, but the
+            # change and the save must not be interleaved with other writers.
+            with self._thread_lock:
+                self._data.clear()
+                self._save()
+        else:
+            # A nested collection is only a part of the data, so the rest must
+            # be up to date before it is saved along with the change.
+            with self._load_and_save:
+                self._data.clear()
 
     def update(self, other=None, **kwargs):  # noqa: D102
         if other is not None:
